@@ -478,6 +478,28 @@ def flat_machine(m):
     return [[[m["w"], m["h"]], m["res"]], m["exc"], m["dead_chips"], m["dead_links"]]
 
 
+HASH_MOD = 2305843009213693951
+
+
+def hl(l):
+    h = 7
+    for v in l:
+        h = (h * 1000003 + v + 1) % HASH_MOD
+    return h
+
+
+def hll(ll):
+    flat = []
+    for l in ll:
+        flat.append(len(l))
+        flat.extend(l)
+    return hl(flat)
+
+
+def hlll(lll):
+    return hl([hll(ll) for ll in lll])
+
+
 def opt(x, f):
     return "None" if x is None else "(Some %s)" % f(x)
 
@@ -508,24 +530,24 @@ def case_exprs(c, out, sim):
         def add(name, e):
             names.append(name)
             parts.append(e)
-        add("sysinfo", "llz_eqb (flat_sysinfo si) %s" % zll([[si[1], si[2]]] + [r[:2] + flat_ci(r[2:]) for r in si[3]]))
-        add("chips", "llz_eqb (flat_chips (map fst (si_chips si))) %s" % zll(out["si_chips"]))
-        add("dead_chips", "llz_eqb (flat_chips (si_dead_chips si)) %s" % zll(out["si_dead_chips"]))
-        add("links", "llz_eqb (flat_links (si_links si)) %s" % zll(out["si_links"]))
-        add("dead_links", "llz_eqb (flat_links (si_dead_links si)) %s" % zll(out["si_dead_links"]))
-        add("cores", "llz_eqb (flat_cores (si_cores si)) %s" % zll(out["si_cores"]))
-        add("ethernet", "llz_eqb (flat_eth (si_ethernet si)) %s" % zll([[x, y] + ip for x, y, ip in out["si_eth"]]))
+        add("sysinfo", "hash_ll (flat_sysinfo si) =? %s" % zlit(hll([[si[1], si[2]]] + [r[:2] + flat_ci(r[2:]) for r in si[3]])))
+        add("chips", "hash_ll (flat_chips (map fst (si_chips si))) =? %s" % zlit(hll(out["si_chips"])))
+        add("dead_chips", "hash_ll (flat_chips (si_dead_chips si)) =? %s" % zlit(hll(out["si_dead_chips"])))
+        add("links", "hash_ll (flat_links (si_links si)) =? %s" % zlit(hll(out["si_links"])))
+        add("dead_links", "hash_ll (flat_links (si_dead_links si)) =? %s" % zlit(hll(out["si_dead_links"])))
+        add("cores", "hash_ll (flat_cores (si_cores si)) =? %s" % zlit(hll(out["si_cores"])))
+        add("ethernet", "hash_ll (flat_eth (si_ethernet si)) =? %s" % zlit(hll([[x, y] + ip for x, y, ip in out["si_eth"]])))
         add("contains", "llz_eqb (contains_queries si %s) %s" % (zll(c["contains_queries"]), zll(out["si_contains"])))
         m = out["machine"]
         if isinstance(m, dict):
-            add("machine", "lllz_eqb (flat_machine (build_machine si)) %s" % zlll(flat_machine(m)))
-            add("machine_queries", "llz_eqb (machine_queries (build_machine si)) %s" % zll(
-                [[x, y, inn] + ([0] if r is None else [1] + r) + [lm] for x, y, inn, r, lm in out["machine_queries"]]))
-            add("machine_iter", "llz_eqb (flat_chips (pm_iter (build_machine si))) %s" % zll(out["machine_iter"]))
+            add("machine", "hash_lll (flat_machine (build_machine si)) =? %s" % zlit(hlll(flat_machine(m))))
+            add("machine_queries", "hash_ll (machine_queries (build_machine si)) =? %s" % zlit(hll(
+                [[x, y, inn] + ([0] if r is None else [1] + r) + [lm] for x, y, inn, r, lm in out["machine_queries"]])))
+            add("machine_iter", "hash_ll (flat_chips (pm_iter (build_machine si))) =? %s" % zlit(hll(out["machine_iter"])))
         else:
             add("machine", "false")
         if isinstance(out.get("get_machine"), dict):
-            add("get_machine", "lllz_eqb (flat_machine (build_machine si)) %s" % zlll(flat_machine(out["get_machine"])))
+            add("get_machine", "hash_lll (flat_machine (build_machine si)) =? %s" % zlit(hlll(flat_machine(out["get_machine"]))))
         elif "get_machine" in out:
             add("get_machine", "false")
         cons = out["constraints"]
@@ -536,7 +558,7 @@ def case_exprs(c, out, sim):
                 [[s, e] + ([0] if loc is None else [1] + loc) for s, e, loc, ok in cons]))
         tl = out["target_lengths"]
         add("target_lengths", "false" if (tl and tl[0] == "err") else
-            "llz_eqb (map (fun t => [fst (fst t); snd (fst t); snd t]) (target_lengths si)) %s" % zll(tl))
+            "hash_ll (map (fun t => [fst (fst t); snd (fst t); snd t]) (target_lengths si)) =? %s" % zlit(hll(tl)))
         body = "match R with Ok si => %s | _ => [false] end" % vlist(parts)
     exprs = ["(" + head + body + ")"]
     all_names = list(names)
@@ -570,7 +592,7 @@ def case_exprs(c, out, sim):
             st = ["ok", flat]
         cmp("status", "processor_status (mem_reader MC) %s" % zlit(p), st, "llz_eqb", zll)
         cmp("iobuf", "get_iobuf_bytes %d%%nat (mem_reader MC) %s" % (len(pr["iobuf"]) + 2, zlit(p)),
-            o["iobuf_bytes"], "lz_eqb", zl)
+            o["iobuf_bytes"], "(fun a b => hash_list a =? b)", lambda l: zlit(hl(l)))
         cmp("router", "router_diagnostics (mem_reader MC)", o["router"], "lz_eqb", zl)
         if o.get("num_cores", ["err"])[0] == "ok":
             cmp("num_cores", "read_sv_int (mem_reader MC) sv_num_cpus", o["num_cores"], "Z.eqb", zlit)
